@@ -39,6 +39,11 @@ HOOK_COMMITS = ["bae4130"]
 ENGINES = [
     {"name": "rapidcheck drivers", "path": "/verif/harness/props", "kind_free_text": "property-based testing: one C++ driver per "
      "property (generator + oracle + replay mode), sharded by ./check"},
+    {"name": "coverage-guided mode of the rapidcheck drivers", "path": "/verif/harness/common/pbt.h", "kind_free_text": "coverage-guided "
+     "fuzzing: the same driver translation units built as libFuzzer targets (-DVF_CGF); binary image of the case struct as input, "
+     "structural custom mutator, per-property normalisation into the input domain, same oracle (DESIGN.md sec. 3.7)"},
+    {"name": "libFuzzer targets", "path": "/verif/harness/fuzz", "kind_free_text": "coverage-guided fuzzing: fuzz_decode (C02, decoder "
+     "histories with the ownership / bound oracle) and fuzz_views (C03, accessor views of validator-accepted payloads)"},
 ]
 NOTES = ("All checks: ./check <ID> --tier quick|thorough; VERIF_SEED selects the generator seeds. Saved failing cases are plain "
          "text files re-run with ./check <ID> --replay <file> (no generator library involved). known_findings.txt lists "
@@ -46,11 +51,12 @@ NOTES = ("All checks: ./check <ID> --tier quick|thorough; VERIF_SEED selects the
 
 PROPS["C01"] = {
     "level": "exploration",
-    "technique": "property-based testing (rapidcheck): encode/decode round trip against getter snapshots of the source packets",
+    "technique": "property-based testing (rapidcheck): encode/decode round trip against getter snapshots of the source packets; plus coverage-guided structure-aware fuzzing (libFuzzer driving the same case struct and oracle)",
     "rule": "cases = generated batches of 1..12 (thorough ..40) packet recipes of all payload kinds x DataContext{min,max} (max 25..65559 and, rarely, up to 300000) x every encode entry point x "
             "encoder ids, half of them preceded by 1..3 earlier encode calls on the same encoder object (one in eight of them ended by the caller's iterator throwing); a case is non-trivial when the batch needs segmentation, or aggregates >=2 packets into one frame, "
             "or mixes message types, or has a payload length within +-2 of the fit boundary; distinct = distinct "
-            "serialized cases (64-bit hash)",
+            "serialized cases (64-bit hash)"
+            " One case in sixteen starts with 65520..65536 (or twice that) frames emitted before, one in eight re-sends the very Packet objects after an earlier encode with single flag bits changed through setCommonFlag only; a quarter feed the decoder an unfinished earlier message first. A coverage-guided stage (libFuzzer on the binary image of the same case struct, normalised into this domain) explores the same space.",
     "assumptions": COMMON_ASSUMPTIONS + ["typed payloads in the batch are well-formed by the oracle's own validators"],
     "level_text": "Generated-input search: thousands of generated batches x configurations are encoded, decoded by a fresh "
                   "decoder and compared field by field with getter snapshots of the source packets; failures shrink to a "
@@ -66,11 +72,12 @@ PROPS["C01"] = {
 
 PROPS["C07"] = {
     "level": "exploration",
-    "technique": "property-based testing (rapidcheck): independent frame walker + byte accounting over generated batches/configurations",
+    "technique": "property-based testing (rapidcheck): independent frame walker + byte accounting over generated batches/configurations; plus coverage-guided structure-aware fuzzing (libFuzzer driving the same case struct and oracle)",
     "rule": "cases = generated batches of 0..12 (thorough ..40) packet recipes (one packet in six carries the errorInPayload flag) x DataContext{min,max}, half of them preceded by 1..3 "
             "earlier encode calls (other frame sizes, versions, types) on the same encoder object; non-trivial when the batch "
             "segments, aggregates, mixes message types, has a length within +-2 of the fit boundary, pads a frame up to min, or "
-            "is the empty batch; distinct = distinct serialized cases",
+            "is the empty batch; distinct = distinct serialized cases"
+            " One case in sixteen starts with about 65536 frames emitted before, one in eight re-sends the same Packet objects with single flag bits changed. A coverage-guided stage (libFuzzer on the binary image of the same case struct, normalised into this domain) explores the same space.",
     "assumptions": COMMON_ASSUMPTIONS,
     "level_text": "Generated-input search with an independent parser of the emitted frames: size bounds, tiling by declared "
                   "lengths, zero padding only up to min, every payload byte exactly once and in order, empty batch -> no frames.",
@@ -85,10 +92,11 @@ PROPS["C07"] = {
 
 PROPS["C08"] = {
     "level": "exploration",
-    "technique": "property-based testing (rapidcheck): emitted layout compared with a reference aggregation/segmentation model",
+    "technique": "property-based testing (rapidcheck): emitted layout compared with a reference aggregation/segmentation model; plus coverage-guided structure-aware fuzzing (libFuzzer driving the same case struct and oracle)",
     "rule": "cases = generated batches x DataContext (half of them after 1..3 earlier encode calls on the same encoder), lengths aimed at fit/no-fit boundaries of the empty and of the current "
             "frame (weight 10/17); one case in six goes beyond the C07 domain with zero-length-payload packets (placed like a 16-byte message that is not written); non-trivial when a length is within +-2 of such a boundary, the batch changes message type, "
-            "or a packet follows a last segment; distinct = distinct serialized cases",
+            "or a packet follows a last segment; distinct = distinct serialized cases"
+            " One case in sixteen starts with about 65536 frames emitted before (counter wrap), one in eight re-sends the same Packet objects with single flag bits changed. A coverage-guided stage (libFuzzer on the binary image of the same case struct) explores the same space.",
     "assumptions": COMMON_ASSUMPTIONS + ["the property pins the layout uniquely, so equality with the reference model is not "
                                          "stronger than the statement; message-less frames are ignored here (C07)"],
     "level_text": "Generated-input search against a reference layout model written from the statement (segment iff the packet "
@@ -103,10 +111,11 @@ PROPS["C08"] = {
 
 PROPS["C09"] = {
     "level": "exploration",
-    "technique": "stateful property-based testing (rapidcheck): generated operation sequences on one Encoder against a counter/identity model",
+    "technique": "stateful property-based testing (rapidcheck): generated operation sequences on one Encoder against a counter/identity model; plus coverage-guided structure-aware fuzzing (libFuzzer driving the same case struct and oracle)",
     "rule": "cases = sequences of 1..8 (thorough ..14) operations {setDeviceId, setStreamId (a third of them re-apply the value "
             "already configured), restart, encode via the three overloads (one call in ten with an empty batch; a third of the batches hold packets with a zero-length payload, which open frames without messages; one in eight a packet of message type 0), encode 20000..33000 one-byte packets with max=25}; non-trivial when the 16-bit counter wraps, or an id "
-            "change/restart after emitted frames is followed by another encode; distinct = distinct serialized sequences",
+            "change/restart after emitted frames is followed by another encode; distinct = distinct serialized sequences"
+            " A coverage-guided stage (libFuzzer on the binary image of the operation sequence, normalised into this domain) explores the same space.",
     "assumptions": COMMON_ASSUMPTIONS,
     "level_text": "Model-based search over operation histories: every emitted frame header and getSequenceCounter() are compared "
                   "with a three-variable model after every operation, including histories that wrap the counter.",
@@ -120,10 +129,11 @@ PROPS["C09"] = {
 
 PROPS["C10"] = {
     "level": "exploration",
-    "technique": "metamorphic property-based testing (rapidcheck): encoder with generated history vs fresh encoder on the same final batch",
+    "technique": "metamorphic property-based testing (rapidcheck): encoder with generated history vs fresh encoder on the same final batch; plus coverage-guided structure-aware fuzzing (libFuzzer driving the same case struct and oracle)",
     "rule": "cases = (history of 0..4 (thorough ..6) encode calls incl. empty batches, zero-length-payload packets and calls ended part-way by the caller's iterator throwing; one case in twelve starts with 65515..65536 frames so that the final batch straddles the counter wrap; half of the cases encode every call from one pool of Packet objects refilled in place; a quarter run the history calls under other device / stream ids set through the setters (both, only the stream id, only the device id); final batch + context), final batch biased to "
             "continue the history's last message type and to need segmentation; non-trivial when the history is non-empty and the "
-            "final batch segments or mixes message types; distinct = distinct serialized cases",
+            "final batch segments or mixes message types; distinct = distinct serialized cases"
+            " One case in twelve repeats the last history call 125..129 or 253..257 times and continues with the first call's message type under another frame size. A coverage-guided stage (libFuzzer on the binary image of the same case struct) explores the same space.",
     "assumptions": COMMON_ASSUMPTIONS + ["differential oracle: the library on a fresh object is the reference, as the property states"],
     "level_text": "Metamorphic search: frames of the n-th call must equal a fresh encoder's frames byte for byte outside the "
                   "sequence counter, with a constant counter offset.",
@@ -143,7 +153,8 @@ PROPS["C05"] = {
             "segmented messages have a reassembled total at / just below 65535 or around 2^15, 1/60 consist of 255..700 segments of "
             "0..2 bytes) merged by a generated schedule; one case in ten has an idle gap of 17..5000 frames of a foreign endpoint inside the first open message; a coverage-guided stage (libFuzzer on the binary image of the same case struct, structural mutator, normalised into this domain) explores the same space from the saved replays, generated samples and an empty corpus; non-trivial when a segmented message is delivered AND the history has a context switch to "
             "another endpoint inside an open message, a counter wrap inside a message, trailing bytes, or a zero-length segment; "
-            "distinct = distinct serialized cases",
+            "distinct = distinct serialized cases"
+            " One case in twenty runs on a long-lived decoder that has already delivered 1 / 2 / 4 MiB of segmented traffic.",
     "assumptions": COMMON_ASSUMPTIONS + ["expected deliveries are derived twice (from the script and from the byte-level reference "
                                          "reassembler); a disagreement between the two aborts as HARNESS-ERROR"],
     "level_text": "Model-based generated-input search: after every decode call the delivered packets must equal the reference "
@@ -164,7 +175,8 @@ PROPS["C17"] = {
             "continuation, invalid message, TECMP, short buffer, header-only}: exhaustively all sequences up to length 3 (thorough 4) "
             "over 22 symbols on two endpoints, random histories up to 60 (thorough 200) frames (one in 12 with segments of 20000..65535 bytes, accumulating beyond 65535), long procedural runs (30k / 250k "
             "frames, 6 or 600 endpoints); every history is followed by closing traffic; non-trivial when an abort / supersede / "
-            "orphan / completion happens while another endpoint is pending; distinct = distinct serialized histories",
+            "orphan / completion happens while another endpoint is pending; distinct = distinct serialized histories"
+            " One history in twelve starts with 60..1030 endpoints that all have a message in progress; one in five repeats 1..3 frames a few positions later.",
     "assumptions": COMMON_ASSUMPTIONS + ["Decoder::verifPending() (guarded hook) reports the real table",
                                          "after an 8-byte header-only frame that endpoint's membership is not asserted until its next frame "
                                          "with a message (the statement is silent); the byte bound is still checked"],
@@ -181,10 +193,11 @@ PROPS["C17"] = {
 
 PROPS["C18"] = {
     "level": "exploration",
-    "technique": "metamorphic property-based testing (rapidcheck): full frame history vs its projection onto each endpoint on a fresh decoder",
+    "technique": "metamorphic property-based testing (rapidcheck): full frame history vs its projection onto each endpoint on a fresh decoder; plus coverage-guided structure-aware fuzzing (libFuzzer driving the same case struct and oracle)",
     "rule": "cases = generated histories of up to 50 (thorough 120) frames over 2..4 endpoints incl. raw garbage, mixed frames, TECMP, "
             "short buffers, header-only frames; non-trivial when >=2 endpoints occur and a reassembled message is delivered whose "
-            "segments were separated by foreign frames (other endpoints, TECMP, short buffers); distinct = distinct serialized histories",
+            "segments were separated by foreign frames (other endpoints, TECMP, short buffers); distinct = distinct serialized histories"
+            " One history in twelve starts with 60..1030 endpoints that all have a message in progress; one in five repeats 1..3 frames a few positions later. A coverage-guided stage (libFuzzer on the binary image of the frame history, with a domain-aware mutation that adds the continuation / copy / neighbour of an existing frame) explores the same space.",
     "assumptions": COMMON_ASSUMPTIONS + ["the oracle is the library itself on the projected input, so the check demands determinism + isolation only"],
     "level_text": "Metamorphic generated-input search: per endpoint, the packets delivered inside the full history must equal, frame by "
                   "frame, those delivered when only that endpoint's frames are fed to a fresh decoder; every packet carries its frame's ids.",
@@ -203,7 +216,8 @@ PROPS["C06"] = {
             "independent segmenter (3/4) or from the library's Encoder (1/4); fault sequence of 1..3 (thorough ..6) of drop / duplicate / "
             "swap / move / corrupt-version / corrupt-message-type); plus exhaustively every single fault at every position of 40 "
             "(thorough 120) fixed base streams of <=12 frames (thorough: every pair on the first 14 of them); non-trivial when a fault hits a frame "
-            "of a segmented message AND a complete message is delivered afterwards on that endpoint; distinct = distinct serialized cases",
+            "of a segmented message AND a complete message is delivered afterwards on that endpoint; distinct = distinct serialized cases"
+            " A third of the senders pad short frames up to a minimum frame size (40..100 bytes); one stream in ten has a chatty endpoint (30..1100 unsegmented frames of it between two consecutive frames of the others).",
     "assumptions": COMMON_ASSUMPTIONS + ["payload bytes are unique per sent packet (packet id in the first bytes), so any mixture, hole or "
                                          "repetition matches no sent packet",
                                          "for a message one of whose frames had its version / message type corrupted only the payload bytes are "
@@ -222,12 +236,13 @@ PROPS["C06"] = {
 
 PROPS["C04"] = {
     "level": "exploration",
-    "technique": "property-based testing (rapidcheck): decoder output vs an independent reference parse (frame walker + three-valued payload validators)",
+    "technique": "property-based testing (rapidcheck): decoder output vs an independent reference parse (frame walker + three-valued payload validators); plus coverage-guided structure-aware fuzzing (libFuzzer driving the same case struct and oracle)",
     "rule": "cases = (optional prior frame history, CMP frame of any header message type incl. 0 with 0..5 (thorough ..8) unsegmented messages of every payload kind in the "
             "classes well-formed / inner length beyond the payload / shorter than its header / bus-error flag / slack, then truncated at "
             "any offset or zero-padded 1..64 bytes; one case in twelve is a frame of more than 64 KiB holding 2..5 messages of tens of thousands of bytes, one in twelve holds a message of 65400..65535 bytes); non-trivial when at least one packet is returned and the frame holds >=2 payload "
             "kinds, or truncation removes messages, or a prior history exists, or a must-be-invalid payload is present; distinct = "
-            "distinct serialized cases",
+            "distinct serialized cases"
+            " A coverage-guided stage (libFuzzer on the binary image of the same case struct) explores the same space.",
     "assumptions": COMMON_ASSUMPTIONS + ["three-valued validators: outcomes the statement does not pin (analog sample type 2/3, interface status "
                                          "byte > 2, CAN error position without flags, Ethernet txPortDown / shorter-than-64 / truncated flags, "
                                          "LIN error flags, slack after the data, message type 0) are don't-care; if such a packet is returned "
@@ -249,7 +264,8 @@ PROPS["C03"] = {
     "rule": "cases = (typed payload class, buffer size, background zero / ones / pseudo-random / pseudo-random without any zero byte, inner length field values (capture-module: also all prefixes behind string k >= 0x0101 with an exact-size buffer), path: class validator+constructor / "
             "message buffer -> Packet constructor / frame -> Decoder / two segments -> Decoder reassembly / TECMP message -> Decoder::decode -> converted packet (CAN, CAN-FD, LIN data of every length 0..255)); exhaustive over every size 0..header+8 and every inner length "
             "value 0..rest+2 plus boundary values, random beyond; non-trivial when the buffer is accepted by validation AND has an inner "
-            "length > 0 or a size within 8 bytes of the header size; distinct = distinct serialized cases",
+            "length > 0 or a size within 8 bytes of the header size; distinct = distinct serialized cases"
+            " On the class-validator path the object is built in static storage (placement new) that held, when the validator accepts it, an object built from a sibling buffer of the same size with the inner lengths rotated / halved.",
     "assumptions": COMMON_ASSUMPTIONS + ["one-directional on purpose: rejection by a validator is always acceptable here (C04/C13 cover what must be accepted)",
                                          "buffers are exactly-sized heap blocks, freed before the accessors run, so ASan sees any read outside them"],
     "level_text": "Exhaustive enumeration of the neighbourhood of every header size and every inner length value, plus generated and "
@@ -267,12 +283,13 @@ PROPS["C03"] = {
 
 PROPS["C15"] = {
     "level": "exploration",
-    "technique": "property-based testing (rapidcheck) + deterministic truncation / type / length sweeps against an independent TECMP parse with MUST / NONE / EITHER expectations",
+    "technique": "property-based testing (rapidcheck) + deterministic truncation / type / length sweeps against an independent TECMP parse with MUST / NONE / EITHER expectations; plus coverage-guided structure-aware fuzzing (libFuzzer driving the same case struct and oracle)",
     "rule": "cases = TECMP frames from independent builders: arbitrary header fields, message type over all 256 values, data type over "
             "all 65536 (thorough) values, CAN / CAN-FD (0..64 data bytes, optional CRC / trailer), LIN, capture-module status, bus status "
             "(0..40 entries) in consistent form and with inner length beyond the buffer, cut at every offset, payload length 0 / too "
             "large; non-trivial = a MUST case with data length > 0 or >= 1 status packet, or a NONE case of an unsupported kind / not "
-            "fitting inner length with a non-empty payload; distinct = distinct serialized frames",
+            "fitting inner length with a non-empty payload; distinct = distinct serialized frames"
+            " One bus-status message in six has an entry that repeats the interface id (and messages total, and all fields) of the entry before it. A coverage-guided stage (libFuzzer on the binary image of the frame history; the reference parse judges the built bytes) explores the same space.",
     "assumptions": COMMON_ASSUMPTIONS + ["EITHER (not asserted): status messages with a non-zero data type field, inner lengths that fit the buffer "
                                          "but not the declared payload length, arbitration id words with bits 29/30 set, complete bus entries after "
                                          "the declared payload length",
@@ -297,7 +314,8 @@ PROPS["C02"] = {
     "rule": "cases = histories of 1..8 buffers on one decoder: raw bytes, CMP frames from field recipes (typed payload templates, segments, "
             "overridden lengths, trailing bytes, truncation), TECMP frames; sweep = 16 seed frames x every truncation offset x every "
             "byte / 16-bit field set to boundary values, each between a first and a last segment; non-trivial when some decode call "
-            "returned a packet, left a pending reassembly or converted a TECMP message; distinct = distinct inputs (64-bit hash)",
+            "returned a packet, left a pending reassembly or converted a TECMP message; distinct = distinct inputs (64-bit hash)"
+            " The enumeration also holds frames of 65536 / 65535 / 65534 / 65528 / 65520 / 32768 bytes tiled exactly to their last byte by unsegmented messages of 0..100 payload bytes; one generated history in eight starts with 60..70 / 250..260 / 1020..1030 endpoints that all have a message in progress; one in five repeats frames. Every decode call is guarded by a 30 s alarm (returns promptly) and exceptions leaving decode() are failures.",
     "assumptions": COMMON_ASSUMPTIONS + ["buffers are exactly-sized heap copies freed before the returned packets are inspected",
                                          "libFuzzer -seed pins a campaign only approximately; a saved artifact is the reproducible unit; "
                                          "timeout/oom/slow-unit artifacts count only if reproduced three times in isolation"],
@@ -345,7 +363,8 @@ PROPS["C12"] = {
             "image the layout table prescribes (exactly the field's bits replaced); (b) hand-laid images read back through every "
             "getter; (c) default objects: reserved bits zero, header sizes; (d) Packet::getRawCmpHeader / getRawMessageHeader for "
             "generated packets of every message type; (e) the length-prefixed variable part of the capture-module / interface payloads, written onto fresh objects and over earlier content (setData or raw bytes), all raw bytes compared with the independent builder, and read back from hand-laid bytes, after which the same object receives by copy assignment another layout of exactly the same total size and is read again; non-trivial when the field is wider than a byte or narrower than its container "
-            "(endianness / masks matter), or a packet raw-header / default-object case; distinct = distinct serialized cases",
+            "(endianness / masks matter), or a packet raw-header / default-object case; distinct = distinct serialized cases"
+            " In the packet raw-header mode half of the cases change the payload's type in place through the mutable Packet::getPayload() after the headers were read once.",
     "assumptions": COMMON_ASSUMPTIONS + ["trusted base: the layout table in harness/common/fields.h and harness/oracle/wire.h, written from the ASAM CMP 1.0 / "
                                          "TECMP layouts (as in the Wireshark dissectors) and cross-checked against the real captures embedded in the "
                                          "repository's tests; the standard documents are not available offline",
@@ -367,7 +386,8 @@ PROPS["C13"] = {
             "header values + data); exhaustive: every CAN / CAN-FD / LIN data length 0..255, Ethernet / analog 0..300 + boundaries up to "
             "65529 / 65519, all string-length parities of the capture-module payload, stream-id lists of every parity; non-trivial when "
             "the object held data of another length before, or the content has an odd-length list / padded string; distinct = distinct "
-            "serialized cases",
+            "serialized cases"
+            " Half of the terminated-string calls pass empty strings as default-constructed string views (data() == nullptr).",
     "assumptions": COMMON_ASSUMPTIONS + ["the CAN DLC code is asserted only for lengths that have one (0..8, 12, 16, 20, 24, 32, 48, 64)",
                                          "data pointers passed to setData are non-null even for length 0"],
     "level_text": "Generated builder histories: getters return exactly the data and lengths supplied, header fields are preserved, the raw "
@@ -389,7 +409,8 @@ PROPS["C14"] = {
             "zero-length payloads, payloads with an invalid type and payloads rejected by validation, target relation independent / copy / copy with another payload type / copy with exactly one bit of one header field changed (every field x bit position enumerated) or with equal headers and a payload differing in one bit / one byte shorter / longer / one type bit / self, operation copy-construct / "
             "copy-assign / move-construct / move-assign incl. self-assignment and self-move-assignment), followed by mutation of either "
             "side (for half of the packet copies: first of all through a writable payload reference obtained before the copy was made) and destruction of the source; non-trivial when the target already held a payload, a length is zero, the source has no "
-            "payload, or the pair is equal-looking; distinct = distinct serialized cases",
+            "payload, or the pair is equal-looking; distinct = distinct serialized cases"
+            " For the capture-module and interface payload classes a compared object is rewritten through setData (other content of the same lengths, then the original content) and compared again.",
     "assumptions": COMMON_ASSUMPTIONS + ["moved-from state is not asserted (only that it can be destroyed)",
                                          "packet equality is compared with field-by-field comparison only when both payloads are non-empty, as the statement says"],
     "level_text": "Generated and exhaustively enumerated pairs: the result's snapshot (all header getters, segment type, counter, payload "
@@ -405,12 +426,13 @@ PROPS["C14"] = {
 
 PROPS["C16"] = {
     "level": "exploration",
-    "technique": "stateful property-based testing (rapidcheck) + bounded exhaustive enumeration of operation sequences against a latest-message map model",
+    "technique": "stateful property-based testing (rapidcheck) + bounded exhaustive enumeration of operation sequences against a latest-message map model; plus coverage-guided structure-aware fuzzing (libFuzzer driving the same case struct and oracle)",
     "rule": "cases = sequences of {update(capture-module status | interface status | data packet | message of another kind (other status payload types, vendor, control, invalid-typed) of device d, interface i), "
             "removeDeviceById, removeInterfaceById, clear} over d in {0,1,2,3,65535}, i in {0,1,2,0xFFFFFFFF} or, in half of the cases, over a base id plus arithmetically related ids (x+1, x+32, x+64, x+128, x+256, top bit flipped; interfaces also x+65536); the exhaustive alphabet is run under three id mappings (plain, congruent mod 64, congruent mod 256), packets built through the "
             "API or obtained from Decoder::decode; exhaustive: all sequences up to length 4 (thorough 5) over a 15-operation alphabet (incl. updates that repeat an earlier payload with other header fields), "
             "random up to 60 (thorough 120) operations, in a tenth of the cases with one update turned into a burst over 8..1100 consecutive device / interface ids (many entries alive at once); non-trivial when an effective removal / clear is followed by a further status "
-            "update; distinct = distinct serialized sequences",
+            "update; distinct = distinct serialized sequences"
+            " A coverage-guided stage (libFuzzer on the binary image of the operation sequence) explores the same space.",
     "assumptions": COMMON_ASSUMPTIONS + ["entry order is not asserted (only ids, counts, lookups and stored packets)"],
     "level_text": "Model-based search, exhaustive up to a stated bound: after every operation device and interface counts, lookups by id "
                   "(index of the match or the element count), absence of duplicate ids and the stored packets' snapshots equal the model.",
@@ -429,7 +451,8 @@ PROPS["C19"] = {
     "rule": "cases = 2..8 generated workloads (encoder call sequences, decoder frame histories, TECMP frames for the static decoder, status "
             "operation sequences, payload-builder sequences, codec round trips), each run 1..3 times by its own thread on its own objects "
             "after a common start barrier, in a TSan build and in an ASan build; non-trivial when >= 2 threads execute the same library "
-            "component; distinct = distinct serialized cases",
+            "component; distinct = distinct serialized cases"
+            " A third of the cases copy-construct each thread's encoder / decoder / status tracker from prototypes with a history built on the main thread (a copy is a separate instance).",
     "assumptions": COMMON_ASSUMPTIONS + ["the harness does not own the scheduler: schedules are sampled, not enumerated; ThreadSanitizer's happens-before "
                                          "analysis reports an unsynchronised access to shared mutable state whenever both accesses execute in the run, "
                                          "largely independent of the actual interleaving",
@@ -456,7 +479,8 @@ PROPS["C20"] = {
             "histories with reassembly and validator-accepted typed payloads (capture-module payloads also un-padded with odd prefixes), TECMP frames, status operation sequences, payload-builder sequences on reused objects, codec "
             "round trips); natively every case runs twice with fresh heap blocks (over-allocated by 16 bytes) filled 0xAA / 0x55 and all outputs - frames, packet fields, raw bytes and every typed accessor value of valid typed packets - must be bit-identical; "
             "a sample of the non-trivial cases is replayed under memcheck; non-trivial = the workload exercises padding, non-data "
-            "messages, reassembly, TECMP conversion, status tracking or builders and produced output bytes; distinct = distinct serialized cases",
+            "messages, reassembly, TECMP conversion, status tracking or builders and produced output bytes; distinct = distinct serialized cases"
+            " Reported views that leave the payload are followed for up to 16 bytes into the poisoned tail of the allocation (an invalid read under memcheck); a fifth of the typed workload payloads carry a 16-bit inner length / count of 0xFFFC..0xFFFF followed by zeros; TECMP workloads include partial trailing bus entries and padding behind the payload.",
     "assumptions": COMMON_ASSUMPTIONS + ["memcheck decides definedness exactly for the executed cases (heap and stack); the poisoning differential covers "
                                          "heap origins only",
                                          "any memcheck error raised while a case runs counts (the harness itself is clean on the unchanged tree)"],
